@@ -299,6 +299,23 @@ Definition required_pp : list bytes :=
 Definition required_ok (sp : spec) : bool :=
   forallb (allowed (allow_main sp)) required_main && forallb (allowed (allow_pp sp)) required_pp.
 
+(* --- the C-vs-C++ driver mode at its source (compiler.rs detect_c_compiler): the detection script prints
+   `compiler_id=<kind>`; each kind builds a compiler whose plusplus() is what hash_key mixes in.  The translated table
+   is (kind, compiler struct, plusplus). *)
+Definition ends_pp (k : bytes) : bool :=
+  match rev k with 43 :: 43 :: _ => true | _ => false end.
+
+Definition driver_pp (t : list (bytes * bytes * bool)) (k : bytes) : option bool :=
+  match find (fun e => bytes_eqb (fst (fst e)) k) t with
+  | Some e => Some (snd e)
+  | None => None
+  end.
+
+(* a kind is a C++ driver iff its name ends in "++"; every "++" id the script can print is handled *)
+Definition drivers_ok (ids : list bytes) (t : list (bytes * bytes * bool)) : bool :=
+  forallb (fun e => Bool.eqb (snd e) (ends_pp (fst (fst e)))) t
+  && forallb (fun i => negb (ends_pp i) || match driver_pp t i with Some _ => true | None => false end) ids.
+
 Definition spec_good (sp : spec) : Prop :=
   shape_c sp = expected_shape_c /\ shape_p sp = expected_shape_p /\ tags_ok sp = true /\ allow_ok sp = true.
 
